@@ -20,9 +20,14 @@ RULE = ("each run = a seeded sequential history of up to 25 operations (set, get
         "paths and values of every picklable Klong kind, under a drawn cache limit (fits one entry / two / everything), "
         "executed as Klong source d,k,,v / d?k against the real store whose worker tasks are scheduler-owned actors; "
         "non-trivial = the history contains an eviction, a reopen or an unload between a set and a later get of the same "
-        "key; distinct = distinct digest of the operation/result sequence")
+        "key; distinct = distinct digest of the operation/result sequence.  Keys include Unicode spelling and case variants; "
+        "when the store touches names besides its value files the history is run again with those names as keys; tables: "
+        "differing column sets (holes), pending inserts, in-place mutation of stored/returned tables; kvs-iofault: one injected read error")
 ASSUMPTIONS = [
-    "key sets are prefix-free (a key that is also a directory prefix of another key cannot be represented by the on-disk layout)",
+    "the keys that are SET are prefix-free (a key that is also a directory prefix of another key cannot be represented by the on-disk "
+    "layout); never-set keys on such paths ('d' for 'd/e', 'a/zz' below the value 'a') are read and must be :undefined",
+    "kvs-iofault configuration: after the one injected read error a get of that key may raise OSError until the key is set again or "
+    "the store reopened (shipped behaviour), it must never answer :undefined or another value; everything else is judged as without a fault",
     "single caller: concurrency between callers is C18's subject",
     "SimFS namespace semantics (fidelity self-test compares it with a real tmpfs directory)",
 ]
@@ -32,7 +37,9 @@ REAL_STUB = {
     "stub": ["open/os -> SimFS", "time.time_ns -> virtual counter", "lock/executor -> SimLock/SimExecutor (worker tasks are actors)"],
 }
 EXPECTED_PROBES = ["probe_eviction", "probe_reopen", "probe_get_after_evict", "probe_oversize_rejected", "probe_missing_get",
-                   "probe_overwrite", "probe_unload", "probe_table_merge_conflict"]
+                   "probe_overwrite", "probe_unload", "probe_table_merge_conflict", "probe_table_with_holes_read",
+                   "probe_table_stored_with_pending_insert", "probe_get_raised_after_read_error",
+                   "probe_missing_get_on_the_path_of_a_set_key", "probe_returned_table_mutated"]
 WALL_CAP = {"quick": 300, "thorough": 3600}
 
 _fc = _kvs = _dfc = None
